@@ -221,7 +221,11 @@ func (e *Engine) storeEffect(addr ssa.Value, res *effSet) {
 		case *ssa.IndexAddr:
 			switch t := types.Unalias(x.X.Type()).Underlying().(type) {
 			case *types.Slice:
-				res.keys["E:"+so.Sort(t.Elem())] = true
+				if e.freshOrigin(x.X) {
+					res.addFresh("E:" + so.Sort(t.Elem()))
+				} else {
+					res.keys["E:"+so.Sort(t.Elem())] = true
+				}
 				return
 			case *types.Pointer:
 				v = x.X
@@ -286,7 +290,11 @@ func (e *Engine) callEffect(c *ssa.CallCommon, res *effSet) {
 		switch v.Name() {
 		case "append", "copy":
 			if sl, ok := types.Unalias(c.Args[0].Type()).Underlying().(*types.Slice); ok {
-				res.keys["E:"+so.Sort(sl.Elem())] = true
+				if e.freshOrigin(c.Args[0]) {
+					res.addFresh("E:" + so.Sort(sl.Elem()))
+				} else {
+					res.keys["E:"+so.Sort(sl.Elem())] = true
+				}
 			}
 		case "delete":
 			mt := types.Unalias(c.Args[0].Type()).Underlying().(*types.Map)
@@ -403,8 +411,7 @@ func stdlibHeapPure(name string) bool {
 		"strings.", "strconv.", "unicode.", "unicode/utf8.", "path.", "path/filepath.Join", "path/filepath.Base", "path/filepath.Dir", "path/filepath.Clean",
 		"path/filepath.Ext", "path/filepath.IsAbs", "path/filepath.Rel", "path/filepath.Split", "path/filepath.Match", "(time.", "time.", "math.", "math/bits.", "bytes.Equal", "bytes.Index", "bytes.HasPrefix",
 		"bytes.HasSuffix", "bytes.Contains", "bytes.LastIndex", "bytes.TrimSpace", "bytes.Compare", "reflect.DeepEqual", "sort.SearchInts", "sort.SearchStrings", "sort.Search",
-		"os.Getenv", "os.Getuid", "os.Geteuid", "os.Getpid", "os.IsNotExist", "os.IsExist", "os.IsPermission", "regexp.MustCompile", "(*regexp.Regexp).MatchString", "(*regexp.Regexp).FindStringSubmatch",
-		"(*regexp.Regexp).Match", "encoding/json.Marshal", "encoding/base64.", "(*encoding/base64.", "crypto/", "hash/", "(*sync.Mutex).", "(*sync.RWMutex).", "sync/atomic.", "(*sync/atomic.",
+		"os.Getenv", "os.Getuid", "os.Geteuid", "os.Getpid", "os.IsNotExist", "os.IsExist", "os.IsPermission", "regexp.MustCompile", "(*regexp.Regexp).", "encoding/json.Marshal", "encoding/base64.", "(*encoding/base64.", "crypto/", "hash/", "(*sync.Mutex).", "(*sync.RWMutex).", "sync/atomic.", "(*sync/atomic.",
 		"unicode/utf8.Valid", "os/user.", "os.Stat", "os.Lstat", "os.Readlink", "os.ReadFile", "io/ioutil.ReadFile", "os.Remove", "os.RemoveAll", "os.Rename", "os.Symlink", "os.MkdirAll", "os.Mkdir", "os.Chmod", "os.Chown",
 		"path/filepath.Glob", "path/filepath.EvalSymlinks", "syscall.", "log.", "(*log.", "net/url.", "net/http.Error"} {
 		if strings.HasPrefix(name, p) {
